@@ -176,7 +176,9 @@ def worker(arg):
                     meta.append(("excluded", fi, mode, "excluded"))
     lines = [G.case_line(c) for c in cases]
     runs = {}
-    for label, extra in (("on", ["--validate", "1", "--api-validate", "1"]), ("off", ["--validate", "0"])):
+    # "shared": the same cases through ONE assembler object that is detached and re-attached whenever the mode changes
+    for label, extra in (("on", ["--validate", "1", "--api-validate", "1"]), ("off", ["--validate", "0"]),
+                         ("shared", ["--validate", "1", "--shared-emitter", "1"])):
         rc, out, err = c01._emit(exe, lines, extra)
         rep = common.sanitizer_report(err)
         if rc != 0 or rep:
@@ -189,10 +191,14 @@ def worker(arg):
     accepted = []
     distinct = set()
     samples = []
-    for c, (kind, fi, mode, tag), on, off in zip(cases, meta, runs["on"], runs["off"]):
+    for c, (kind, fi, mode, tag), on, off, sh in zip(cases, meta, runs["on"], runs["off"], runs["shared"]):
         line = G.case_line(c)
         f = forms[fi]
         v, e_on, e_off = on["v"], on["err"], off["err"]
+        if sh["err"] != e_on or sh["bytes"] != on["bytes"]:
+            viol.append(("validation-depends-on-emitter-history:%d-bit" % mode,
+                         "an assembler that was attached to the other mode before gives error %d / bytes %s, a dedicated %d-bit assembler error %d / bytes %s: %s" %
+                         (sh["err"], sh["bytes"], mode, e_on, on["bytes"], line), line))
         if on.get("iid", 1) == 0:
             stats["name_unknown_to_asmjit"] += 1
             continue  # mnemonic not implemented by this release: not one of "the forms AsmJit implements"
